@@ -601,9 +601,55 @@ func c20Dedup(w *core.W, j int) {
 	}
 }
 
+// c20HandBuilt: "holds between a record and its copy" for records a program filled in by hand (a field,
+// an EDNS0 option or an SVCB parameter set directly: addresses in 4- and 16-octet form, hex in either
+// case, unpadded base64, ...), as long as the packer accepts the value.
+func c20HandBuilt(w *core.W, j int) {
+	ls := c01Layouts()
+	g := model.NewGen(w.Rng(j))
+	g.NoHuge = true
+	g.MaxOpaque = 60
+	for k := 0; k < 10; k++ {
+		l := ls[(j*10+k)%len(ls)]
+		if l.Type == 41 { // OPT: recorded finding C20/not-reflexive/OPT
+			continue
+		}
+		rr, err := buildAny(g.Rec(l))
+		if err != nil || rr == nil {
+			continue
+		}
+		if _, priv := rr.(*dns.PrivateRR); priv {
+			continue
+		}
+		touched := handMutate(g, rr)
+		for x := 0; x < 2 && (l.Type == 64 || l.Type == 65 || l.Type == 42); x++ {
+			touched = append(touched, handMutate(g, rr)...)
+		}
+		if len(touched) == 0 {
+			continue
+		}
+		// only values the packer accepts are records (an alpn id over 255 octets, an IPv6 address in an
+		// ipv4hint ... make a struct that denotes nothing; SVCB compares parameters by their wire form)
+		if _, perr := dns.PackRR(rr, make([]byte, 70000), 0, nil, false); perr != nil {
+			w.Count("hand_built_unpackable", 1)
+			continue
+		}
+		w.Eval(1)
+		w.Count("hand_built_records", 1)
+		wit := map[string]any{"type": l.Name, "fields_set_by_hand": touched, "value": cutS(fmt.Sprintf("%#v", rr))}
+		w.Guard("IsDuplicate(hand-built)", wit, func() {
+			cp := dns.Copy(rr)
+			if !dns.IsDuplicate(rr, rr) || !dns.IsDuplicate(rr, cp) || !dns.IsDuplicate(cp, rr) {
+				w.Violation("C20/not-reflexive/"+l.Name+"/hand-built", fmt.Sprintf("IsDuplicate(r, r) / (r, Copy(r)) / (Copy(r), r) is not true for a %s whose %v were set by hand: %s", l.Name, touched, cutS(rr.String())), wit)
+			}
+		})
+	}
+}
+
 func init() {
 	plan, run := sections(
 		section{"pairs", tiered(3000, 80000), c20Pairs},
+		section{"hand-built", tiered(600, 15000), c20HandBuilt},
 		section{"dedup", tiered(2500, 60000), c20Dedup},
 		concurrentSection("C20"),
 	)
@@ -611,6 +657,6 @@ func init() {
 		ID: "C20", Level: "exploration", Plan: plan, Run: run,
 		Rule: "per registry type: a wire-originated record against its copy and variants {identical, TTL, owner case, embedded-name case, one RDATA field re-drawn (x3), class, APL IPv4 item vs the same address as IPv4-mapped IPv6 item}; oracle = model key (type, class, lower-cased owner wire, RDATA wire with embedded names lower-cased); " +
 			"symmetry, reflexivity, transitivity over the equal variants; Dedup against a stable first-occurrence filter keyed by text minus TTL with lower-cased owner, minimum TTL, with nil, fresh and reused scratch maps (later lists repeat records an earlier call kept); the same operations called from 8 goroutines at once give the results they give alone; non-trivial = distinct (record, variant) pair / list with duplicates",
-		MinObserved: []string{"triples", "dedup_lists_with_duplicates"},
+		MinObserved: []string{"triples", "dedup_lists_with_duplicates", "hand_built_records"},
 	})
 }
